@@ -40,7 +40,10 @@ type runCfg struct {
 	Timeout     time.Duration `json:"timeout_ns"`
 	Keys        []string      `json:"metadata_keys"`
 	Limit       uint32        `json:"metadata_cardinality_limit"`
-	Mode        string        `json:"mode"` // size | timer | immediate
+	Mode        string        `json:"mode"`                                     // size | timer | trickle | immediate
+	IntervalUS  int           `json:"trickle_interval_us,omitempty"`            // trickle: one small payload per producer every interval (timeout/4)
+	MinSends    int           `json:"trickle_min_sends_per_producer,omitempty"` // trickle: arrivals continue for at least this many sends (>= 6 timeouts)
+	TrickleSeed int64         `json:"trickle_seed,omitempty"`
 	Producers   int           `json:"producers"`
 	PerProducer int           `json:"payloads_per_producer_and_wave"`
 	Waves       int           `json:"waves"`
@@ -135,6 +138,7 @@ type payload struct {
 	callSeq  int64
 	retSeq   int64
 	callAt   time.Time
+	retAt    time.Time
 }
 
 type sinkCall struct {
@@ -230,16 +234,25 @@ func maxProducers() int {
 func buildRun(rng *rand.Rand) (*runCfg, []*payload) {
 	a := adapters[rng.Intn(len(adapters))]
 	cfg := &runCfg{Signal: a.name, ShutdownAt: -1, HoldAt: -1, Waves: 1}
-	switch r := rng.Intn(10); {
-	case r < 5:
+	switch r := rng.Intn(20); {
+	case r < 9:
 		cfg.Mode = "size"
 		cfg.Timeout = time.Hour
 		cfg.Size = uint32(1 + rng.Intn(50))
-	case r < 7:
+	case r < 12:
 		cfg.Mode = "timer"
 		cfg.Timeout = []time.Duration{10 * time.Millisecond, 20 * time.Millisecond}[rng.Intn(2)]
 		cfg.Size = 100000
 		cfg.Waves = 2 + rng.Intn(2)
+	case r < 14:
+		// sustained trickle: arrivals spaced timeout/4 that never pause for >= 6 timeouts while the pending count stays
+		// far below send_batch_size, so only the timer can flush (a timer restarted by every arrival never would)
+		cfg.Mode = "trickle"
+		cfg.Timeout = []time.Duration{20 * time.Millisecond, 40 * time.Millisecond}[rng.Intn(2)]
+		cfg.Size = 100000
+		cfg.IntervalUS = int(cfg.Timeout / 4 / time.Microsecond)
+		cfg.MinSends = 24 + rng.Intn(9)
+		cfg.TrickleSeed = rng.Int63()
 	default:
 		cfg.Mode = "immediate"
 		if rng.Intn(2) == 0 {
@@ -250,7 +263,7 @@ func buildRun(rng *rand.Rand) (*runCfg, []*payload) {
 			cfg.Timeout = []time.Duration{0, 20 * time.Millisecond, time.Hour}[rng.Intn(3)]
 		}
 	}
-	if cfg.Mode != "timer" && rng.Intn(3) > 0 {
+	if cfg.Mode != "timer" && cfg.Mode != "trickle" && rng.Intn(3) > 0 {
 		cfg.Max = cfg.Size + uint32(rng.Intn(11))
 		if cfg.Max == 0 {
 			cfg.Max = uint32(1 + rng.Intn(20))
@@ -274,6 +287,15 @@ func buildRun(rng *rand.Rand) (*runCfg, []*payload) {
 		cfg.PerProducer = 1 + rng.Intn(2)
 	}
 	cfg.Lean = rng.Intn(2) == 0
+	if cfg.Mode == "trickle" {
+		cfg.Producers = 1 + rng.Intn(2)
+		cfg.PerProducer = 0
+		cfg.Lean = true
+		if cfg.Limit == 1 {
+			cfg.Limit = 2 // every producer trickles into its own metadata group; none of them is to be refused
+		}
+		return cfg, nil // the payloads are generated while the trickle runs (its length depends on the first flush)
+	}
 	total := cfg.Producers * cfg.PerProducer * cfg.Waves
 	switch rng.Intn(4) {
 	case 0: // shutdown at a logical point in the middle of the run
@@ -364,17 +386,19 @@ func runOne(c *driver.Ctx, cfg *runCfg, pls []*payload) (splitSeen bool) {
 	held := make(chan struct{})
 	release := make(chan struct{})
 	var heldOnce sync.Once
-	totalItems := 0
+	var nItems, nPls atomic.Int64
 	for _, pl := range pls {
-		totalItems += len(pl.recs)
+		nItems.Add(int64(len(pl.recs)))
+		nPls.Add(1)
 	}
+	emittedOwner := map[string]bool{} // guarded by mu
 	var runaway atomic.Bool
 	var abandoned atomic.Bool
 	sink := func(ctx context.Context, x any) error {
 		k := int(nCalls.Add(1)) - 1
-		if k > 20*(totalItems+len(pls))+1000 { // far more batches than items: the processor emits without end
+		if int64(k) > 20*(nItems.Load()+nPls.Load())+1000 { // far more batches than items: the processor emits without end
 			if runaway.CompareAndSwap(false, true) {
-				c.Violation("runaway", fmt.Sprintf("more than %d batches were emitted for %d accepted items in %d payloads", k, totalItems, len(pls)), map[string]any{"config": cfg}, "signal", cfg.Signal, "mode", cfg.Mode)
+				c.Violation("runaway", fmt.Sprintf("more than %d batches were emitted for %d accepted items in %d payloads", k, nItems.Load(), nPls.Load()), map[string]any{"config": cfg}, "signal", cfg.Signal, "mode", cfg.Mode)
 			}
 			for !abandoned.Load() {
 				time.Sleep(10 * time.Millisecond)
@@ -400,7 +424,9 @@ func runOne(c *driver.Ctx, cfg *runCfg, pls []*payload) (splitSeen bool) {
 		mu.Lock()
 		calls = append(calls, sc)
 		for i := range sc.recs {
-			if pl := ownerPl[sc.recs[i].Owner()]; pl != nil {
+			o := sc.recs[i].Owner()
+			emittedOwner[o] = true
+			if pl := ownerPl[o]; pl != nil {
 				emittedByGroup[pl.group]++
 			}
 		}
@@ -502,9 +528,73 @@ func runOne(c *driver.Ctx, cfg *runCfg, pls []*payload) (splitSeen bool) {
 					err := consume(ctx, pl.p)
 					rs := ev.stamp("r", p)
 					mu.Lock()
-					pl.callSeq, pl.retSeq, pl.err, pl.returned = cs, rs, err, true
+					pl.callSeq, pl.retSeq, pl.err, pl.returned, pl.retAt = cs, rs, err, true, time.Now()
 					mu.Unlock()
 					completed.Add(1)
+				}
+			}(p)
+		}
+		wg.Wait()
+	}
+
+	// runTrickle: every producer sends one small payload per interval (timeout/4) into its own metadata group and
+	// never pauses: at least MinSends times (>= 6 timeouts) and until the first payload it got accepted has been
+	// emitted. It gives up after timeout + slack + 2 timeouts; the verdict is then taken from the recorded latencies.
+	var trickleSent atomic.Int64
+	runTrickle := func() {
+		interval := time.Duration(cfg.IntervalUS) * time.Microsecond
+		giveUp := cfg.Timeout + slack + 2*cfg.Timeout
+		gc := gen.Config{MaxResources: 1, MaxScopes: 1, MaxItems: 2, MaxPoints: 2, NonEmpty: true, Lean: true}
+		var wg sync.WaitGroup
+		for p := 0; p < cfg.Producers; p++ {
+			wg.Add(1)
+			go func(p int) {
+				defer wg.Done()
+				r := rand.New(rand.NewSource(cfg.TrickleSeed + int64(p)))
+				md := map[string][]string{"other": {"x"}, "tenant": {fmt.Sprintf("t%d", p)}, "region": {"r0"}}
+				group := groupOf(cfg.Keys, md)
+				var firstRet time.Time
+				firstOwner := ""
+				for k := 0; !stopping.Load() && !abandoned.Load(); k++ {
+					if k >= cfg.MinSends {
+						if firstOwner == "" {
+							return // nothing of this producer was ever accepted
+						}
+						mu.Lock()
+						out := emittedOwner[firstOwner]
+						mu.Unlock()
+						if out {
+							return
+						}
+					}
+					if firstOwner != "" && time.Since(firstRet) > giveUp {
+						return
+					}
+					owner := fmt.Sprintf("w0p%dk%d", p, k)
+					x := a.gen(gen.New(r, owner, gc))
+					recs, shape := a.flatten(x)
+					pl := &payload{owner: owner, p: x, recs: recs, shape: shape, md: md, group: group, producer: p}
+					nItems.Add(int64(len(recs)))
+					nPls.Add(1)
+					mu.Lock()
+					pls = append(pls, pl)
+					ownerPl[owner] = pl
+					pl.called, pl.callAt = true, time.Now()
+					mu.Unlock()
+					ctx := client.NewContext(context.Background(), client.Info{Metadata: client.NewMetadata(md)})
+					cs := ev.stamp("c", p)
+					err := consume(ctx, x)
+					rs := ev.stamp("r", p)
+					now := time.Now()
+					mu.Lock()
+					pl.callSeq, pl.retSeq, pl.err, pl.returned, pl.retAt = cs, rs, err, true, now
+					mu.Unlock()
+					completed.Add(1)
+					trickleSent.Add(1)
+					if err == nil && firstOwner == "" {
+						firstOwner, firstRet = owner, now
+					}
+					time.Sleep(interval)
 				}
 			}(p)
 		}
@@ -523,6 +613,14 @@ func runOne(c *driver.Ctx, cfg *runCfg, pls []*payload) (splitSeen bool) {
 		done := make(chan struct{})
 		go func() { // the workload
 			defer close(done)
+			if cfg.Mode == "trickle" {
+				runTrickle()
+				// the arrivals have stopped: what is still pending is due one timeout later at the latest
+				if !settle(1, "timer-flush", "trickle ended: pending items are due by the timer") {
+					settled = false
+				}
+				return
+			}
 			for w := 0; w < cfg.Waves && !stopping.Load(); w++ {
 				runWave(w)
 				if cfg.HoldAt >= 0 || stopping.Load() {
@@ -767,6 +865,47 @@ func runOne(c *driver.Ctx, cfg *runCfg, pls []*payload) (splitSeen bool) {
 			spreadPayloads++
 		}
 	}
+	// (7) sustained trickle: at every emission the OLDEST item that was pending had not waited longer than
+	// timeout + slack, although arrivals never paused (arrival = the moment its Consume call had returned; every
+	// timer flush sends all the shard holds, so the oldest pending item of a group is the oldest one in the batch)
+	trickleFlushes := 0
+	if cfg.Mode == "trickle" {
+		var worst time.Duration
+		worstWhat := ""
+		for _, sc := range snapshotCalls {
+			if sc.seq < sdCall {
+				trickleFlushes++
+			}
+			var oldest *payload
+			for _, o := range canon.Owners(sc.recs) {
+				if pl := ownerPl[o]; pl != nil && pl.returned && (oldest == nil || pl.retAt.Before(oldest.retAt)) {
+					oldest = pl
+				}
+			}
+			if oldest == nil {
+				continue
+			}
+			if l := sc.at.Sub(oldest.retAt); l > worst {
+				worst = l
+				worstWhat = fmt.Sprintf("sink call %d (event %d%s) emitted %s of group [%s], accepted at event %d, %v after it had arrived", sc.k, sc.seq,
+					map[bool]string{true: ", during Shutdown", false: ""}[sc.seq > sdCall], oldest.owner, oldest.group, oldest.retSeq, l.Round(time.Millisecond))
+			}
+		}
+		c.ObserveMax("max:trickle_oldest_pending_latency_ms", worst.Milliseconds())
+		c.ObserveMax("max:scheduler_witness_gap_ms_in_trickle_runs", time.Duration(sw.maxGapRun.Load()).Milliseconds())
+		c.Observe("trickle_payloads_sent", trickleSent.Load())
+		c.Observe("trickle_timer_flushes_before_shutdown", int64(trickleFlushes))
+		if worst > cfg.Timeout+slack {
+			settleTimeouts[cfg.Mode]++
+			if gap := time.Duration(sw.maxGapRun.Load()); gap > healthyGap {
+				c.Inconclusive("c17-trickle-scheduler-unhealthy")
+			} else {
+				c.Violation("timer-flush", fmt.Sprintf("sustained trickle (one payload every %v per producer, timeout %v, send_batch_size %d never reached): %s — more than timeout + %v (scheduler witness healthy: worst 1 ms sleep took %v)",
+					time.Duration(cfg.IntervalUS)*time.Microsecond, cfg.Timeout, cfg.Size, worstWhat, slack, time.Duration(sw.maxGapRun.Load())), witness(nil), sig()...)
+			}
+		}
+	}
+
 	c.Observe("runs", 1)
 	c.Observe("runs_"+cfg.Mode, 1)
 	c.Observe("sink_calls", int64(len(snapshotCalls)))
@@ -785,7 +924,7 @@ func runOne(c *driver.Ctx, cfg *runCfg, pls []*payload) (splitSeen bool) {
 	isig := ev.signature()
 	c.Distinct("interleavings", isig)
 	c.Distinct("config_classes", cfg.class())
-	if spreadPayloads > 0 || len(groupsSeen) >= 2 || duringShutdown > 0 {
+	if spreadPayloads > 0 || len(groupsSeen) >= 2 || duringShutdown > 0 || trickleFlushes >= 2 {
 		c.Nontrivial(cfg.class(), cfg.Size, cfg.Max, cfg.Timeout, isig)
 	}
 	if c.Shard == 0 {
@@ -860,14 +999,15 @@ func main() {
 	driver.Main(driver.Spec{
 		ID:    "C17",
 		Level: "exploration",
-		Rule: "a run is (signal, send_batch_size 0..50 or 'never', send_batch_max_size 0 or >= size, timeout 0 / 10-20 ms / 1 h, 0..2 metadata_keys, cardinality limit 0..3, 1..8 producers x generated payloads with random client metadata in 1..3 waves, " +
+		Rule: "a run is (signal, send_batch_size 0..50 or 'never', send_batch_max_size 0 or >= size, timeout 0 / 10-20 ms / 1 h, 0..2 metadata_keys, cardinality limit 0..3, 1..8 producers x generated payloads with random client metadata in 1..3 waves, or a sustained trickle: 1..2 producers sending one small payload every timeout/4 for >= 6 timeouts and until their first payload is out, " +
 			"shutdown point: after everything settled / after n completed sends (producers quiesced or still in a call) / while the shard is held inside a sink call with accepted payloads in its input channel); " +
 			"distinct by (config class, size, max, timeout, interleaving signature = hash of the consume-call/return, sink-call and shutdown events with actors); " +
-			"non-trivial when a payload was split over >= 2 batches, >= 2 metadata groups were emitted, or a batch was emitted during Shutdown (items were pending at shutdown)",
+			"non-trivial when a payload was split over >= 2 batches, >= 2 metadata groups were emitted, a batch was emitted during Shutdown (items were pending at shutdown), or a trickle run saw >= 2 timer flushes while arrivals continued",
 		Assumptions: []string{
 			"downstream accepts everything (the sink returns nil)",
 			"must-emit set = payloads whose Consume call returned nil before the Shutdown call was made (event counter); payloads accepted while Shutdown runs may or may not be emitted, but never partially or twice; Shutdown concurrent with Consume calls is only exercised without metadata_keys (a shard started after Shutdown began is outside the statement)",
 			"size trigger / timer flush are bounded-progress checks: after all producers of a wave returned, every group must get below send_batch_size (size mode) / to zero pending items (timer, immediate) within 4 s (>= 200 x the timeout); the verdict needs a healthy scheduler witness (no 1 ms sleep took longer than 200 ms), else the run is inconclusive",
+			"sustained trickle (timeout 20/40 ms, arrivals every timeout/4 that never pause, send_batch_size never reached): at every emission the oldest pending item (arrival = return of its Consume call) must not be older than timeout + 4 s; the arrivals go on until each producer's first payload is out, or timeout + 4 s + 2 timeouts have passed, so a timer that every arrival restarts is seen; verdict only with a healthy scheduler witness over the whole run, else inconclusive",
 			"metadata group = values of the configured keys in the incoming client.Info (key lookup case-insensitive, absent and empty string distinct); the export context must return exactly these values for the configured keys and carry no other key",
 			"a refusal is wrong only if metadata_cardinality_limit is 0 or a payload of the same group had already been accepted before the refused call began (two first arrivals of one group racing at the limit are not judged)",
 		},
